@@ -54,6 +54,7 @@ CallTokens(name) ==
       [] name = "println" -> <<Tok("LS"), Tok("WIDTH")>> \o Draw \o <<Tok("US")>>       \* BarState::println asks the target for its width first (read lock)
       [] name = "disable" -> <<Tok("LK"), Tok("STOPJOIN"), Tok("CLEARSLOT"), Tok("UK")>>
       [] name \in {"enable", "enable_fast"} -> <<Tok("LK"), Tok("STOPJOIN"), Tok("CLEARSLOT"), Tok("SPAWN"), Tok("UK")>>      \* enable_fast: an interval of one nanosecond
+      [] name = "show"    -> <<Tok("LS"), Tok("US")>>             \* set_draw_target of a stand-alone bar: the old (hidden) target has nothing to disconnect
       [] name = "mp_println" -> <<Tok("WM"), Tok("UM")>>
       [] name = "mp_remove" -> <<Tok("LS"), Tok("RM_IFMEMBER"), Tok("US")>>      \* MultiProgress::remove: bar state, then MultiState
       (* MultiProgress::insert_after(&bar, new): the anchor's index is read under its state lock, the slot is made under the   *)
